@@ -132,7 +132,9 @@ def render_schema(sid, s):
     if s.get("pad") is not None:
         t += "notes:\n" + "".join("  - %s\n" % x for x in s["pad"])
     t += "speller:\n  alphabet: abcdefghijklmnopqrstuvwxyz\n"
-    if s.get("algebra"):
+    if s.get("include_algebra"):
+        t += "  algebra:\n    __include: inc:/algebra\n"        # the algebra comes from a third file
+    elif s.get("algebra"):
         t += "  algebra:\n" + "".join("    - %s\n" % q(a) for a in s["algebra"])
     t += "translator:\n  dictionary: %s\n" % s["dict"]
     if s.get("prism"):
@@ -160,6 +162,7 @@ def render(state):
     dicts {name: {rows[(text, code, weight|None)], imports[], vocabulary?: name, sort?}};
     custom {id|'default': {path: value}} (rendered as <id>.custom.yaml patch, in user/);
     vocab {name: [(text, weight)]} (rendered as shared/<name>.txt);
+    inc {algebra[]} (shared/inc.yaml, __include'd by schemas with include_algebra);
     user_default [ids] / user_schemas {id: ...} / user_dicts {name: ...}: copies in the user
     directory that shadow the shared files of the same name (the resolvers look there first)."""
     files = {}
@@ -185,6 +188,8 @@ def render(state):
         files["user/%s.custom.yaml" % cid] = t
     for name, rows in state.get("vocab", {}).items():
         files["shared/%s.txt" % name] = "".join("%s\t%d\n" % r for r in rows)
+    if state.get("inc") is not None:
+        files["shared/inc.yaml"] = "algebra:\n" + "".join("  - %s\n" % q(a) for a in state["inc"]["algebra"])
     return files
 
 
